@@ -75,12 +75,15 @@ class C18(PoolCheck):
         return 2500 if tier == 'quick' else 100000
 
     def gen_case(self, rng, index):
-        key = rng.choice(self.keys)
+        # half of the runs use the families whose validation touches state shared between calls
+        hot = [k for k in self.keys if k.startswith(('xsitype/', 'fixed/'))]
+        key = rng.choice(hot) if hot and rng.random() < 0.5 else rng.choice(self.keys)
         e = self.entries[key]
         m = [op for op in histories.menu(e)]
         scenario = rng.choice(['built', 'built', 'racing_build', 'racing_build', 'shared_lazy'])
         nthreads = rng.choice([2, 2, 3, 4])
-        pool = rng.sample(range(len(e.docs)), min(len(e.docs), rng.randrange(2, 5)))
+        # small colliding pools: with 2 documents every thread pair works on the same or the sibling document
+        pool = rng.sample(range(len(e.docs)), min(len(e.docs), rng.choice([2, 2, 3, 4])))
         programs = []
         for t in range(nthreads):
             prog = []
